@@ -33,7 +33,7 @@ var lvPlants = []string{
 // VerifLemma_C05G_SinglePlantedViolation: the property's statement on one schema. A file that follows every rule by
 // construction (names symbolic, drawn from the rule grammars) gets no annotation from any of 29 element-level and
 // grouping lint handlers; planting exactly one violation (29 planting operators, structural choice) makes exactly the
-// planted rule report - exactly once, at the offending element - and every other rule stays silent.
+// planted rule report - at the offending element and nowhere else - and every other rule stays silent.
 func VerifLemma_C05G_SinglePlantedViolation() {
 	plant := verifNondetChoice(len(lvPlants))
 	// ---- clean-by-construction schema ----
@@ -154,6 +154,8 @@ func VerifLemma_C05G_SinglePlantedViolation() {
 	// ---- run every handler ----
 	counts := map[string]int{}
 	hits := map[string]bool{}
+	stray := false // an annotation of the planted rule somewhere else than at the offending element(s)
+	grouping := lvPlants[plant] == "PACKAGE_SAME_GO_PACKAGE" || lvPlants[plant] == "PACKAGE_SAME_DIRECTORY" || lvPlants[plant] == "DIRECTORY_SAME_PACKAGE"
 	req := lvNewReq(nil)
 	// the standard-name rules run with both allow-Empty options (so that Empty request/response names are fine),
 	// RPC_REQUEST_RESPONSE_UNIQUE runs with the defaults
@@ -161,8 +163,17 @@ func VerifLemma_C05G_SinglePlantedViolation() {
 	run := func(rule string, err error, w *lvRW) {
 		verifAssert(err == nil, "handlers do not fail")
 		counts[rule] += len(w.anns)
-		if rule == lvPlants[plant] && w.lvHasFor(where, whereFile) {
-			hits[rule] = true
+		if rule == lvPlants[plant] {
+			if w.lvHasFor(where, whereFile) {
+				hits[rule] = true
+			}
+			for _, a := range w.anns {
+				atFile := a.loc == where && (a.file == whereFile || where == "<AddAnnotation>")
+				atSibling := grouping && a.file == sibling.path && len(a.loc) > len(sibling.path) && a.loc[:len(sibling.path)] == sibling.path
+				if !atFile && !atSibling {
+					stray = true
+				}
+			}
 		}
 	}
 	ifiles := []bufprotosource.File{file, sibling}
@@ -248,11 +259,7 @@ func VerifLemma_C05G_SinglePlantedViolation() {
 	if planted != "" {
 		verifCover("violation planted")
 		verifAssert(hits[planted], "the planted rule reports at the offending element")
-		want := 1
-		if planted == "PACKAGE_SAME_GO_PACKAGE" || planted == "PACKAGE_SAME_DIRECTORY" || planted == "DIRECTORY_SAME_PACKAGE" {
-			want = 2 // one per file of the disagreeing group
-		}
-		verifAssert(counts[planted] == want, "the planted rule reports exactly once per offending element")
+		verifAssert(!stray, "the planted rule reports nowhere else than at the offending element(s)")
 	}
 }
 
